@@ -14,11 +14,16 @@ import (
 func defaultHasher[T comparable]() func(T, uint64) uint64 {
 	var zero T
 
-	if reflect.TypeOf(&zero).Elem().Kind() == reflect.Interface {
+	if t := reflect.TypeOf(&zero).Elem(); t.Kind() == reflect.Interface {
+		// Hash the key through the interface type itself: the runtime then
+		// hashes the dynamic type and value exactly as a built-in map with
+		// an interface key type does. This also covers nil keys and dynamic
+		// values stored directly in the interface word (e.g. pointers).
+		var iType any = t
+		i := (*iface)(unsafe.Pointer(&iType))
+		typ := uintptr(i.word)
 		return func(value T, seed uint64) uint64 {
-			iValue := any(value)
-			i := (*iface)(unsafe.Pointer(&iValue))
-			return runtime_typehash64(i.typ, i.word, seed)
+			return runtime_typehash64(typ, unsafe.Pointer(&value), seed)
 		}
 	} else {
 		var iZero any = zero
